@@ -248,6 +248,7 @@ func runC04(r *run) {
 			r.sample(map[string]any{"record": encDescribe(c), "line": string(line)})
 		}
 	}
+	c04PreparedLists(r, g)
 	// the quoting functions themselves, and the standard readers of their output
 	nq := 1500
 	if r.tier == "thorough" {
@@ -255,4 +256,71 @@ func runC04(r *run) {
 	}
 	quoteProbes(r, g, true, nq)
 	slog.VerifResetGlobals()
+}
+
+// c04PreparedLists: attribute lists prepared once by the application (Attrs values, []Attr) and passed to the verbs again
+// and again, with other loggers' records in between: each record decodes to exactly the members that call was given.
+func c04PreparedLists(r *run, g *rng) {
+	rounds := 40
+	if r.tier == "thorough" {
+		rounds = 600
+	}
+	slog.SetFlags((slog.LstdFlags &^ slog.Lcaller) | slog.LnoInterrupt)
+	for round := 0; round < rounds; round++ {
+		recA, recB := &recorder{}, &recorder{}
+		a := slog.New(fmt.Sprintf("c04pa%d", round)).SetWriter(recA).SetErrorWriter(recA).SetLevel(slog.InfoLevel).SetJSONMode(true)
+		b := slog.New(fmt.Sprintf("c04pb%d", round)).SetWriter(recB).SetErrorWriter(recB).SetLevel(slog.InfoLevel).SetJSONMode(true)
+		nk := 1 + g.intn(4)
+		var pairs []any
+		want := map[string]int{}
+		for k := 0; k < nk; k++ {
+			key := fmt.Sprintf("p%d", k)
+			pairs = append(pairs, key, 100+k)
+			want[key] = 100 + k
+		}
+		prepared := slog.NewAttrs(pairs...)
+		asSlice := g.chance(1, 3)
+		for rep := 0; rep < 3; rep++ {
+			recA.take()
+			if asSlice {
+				a.Info("prepared list", []slog.Attr(prepared))
+			} else {
+				a.Info("prepared list", prepared)
+			}
+			w := recA.take()
+			// another logger's record with arguments of its own in between
+			var other []any
+			for k := g.intn(5); k >= 0; k-- {
+				other = append(other, fmt.Sprintf("o%d", k), k)
+			}
+			b.Warn("other record", other...)
+			recB.take()
+			r.seen(fmt.Sprintf("prepared|%d|%v|%d", nk, asSlice, rep))
+			input := map[string]any{"prepared_list": fmt.Sprint(pairs), "passed_as_slice": asSlice, "time_it_is_passed": rep + 1, "in_between": "another logger's record with " + fmt.Sprint(len(other)/2) + " attributes"}
+			if len(w) != 1 {
+				r.violate(violation{What: "a call with a prepared attribute list did not produce one record", Input: input, Actual: fmt.Sprint(len(w))})
+				continue
+			}
+			var obj map[string]any
+			dec := json.NewDecoder(bytes.NewReader(w[0]))
+			dec.UseNumber()
+			if err := dec.Decode(&obj); err != nil {
+				r.violate(violation{What: "the record is not valid JSON: " + err.Error(), Input: input, Actual: fmt.Sprintf("%q", w[0])})
+				continue
+			}
+			got := map[string]string{}
+			for k, v := range obj {
+				if k != "time" && k != "level" && k != "msg" && k != "logger" {
+					got[k] = fmt.Sprint(v)
+				}
+			}
+			wantS := map[string]string{}
+			for k, v := range want {
+				wantS[k] = fmt.Sprint(v)
+			}
+			if fmt.Sprint(got) != fmt.Sprint(wantS) {
+				r.violate(violation{What: "a record given a prepared attribute list does not decode to exactly the members of that list", Input: input, Expected: fmt.Sprint(wantS), Actual: fmt.Sprint(got)})
+			}
+		}
+	}
 }
